@@ -1103,9 +1103,7 @@ theorem absStep_step (s : Heap) (op : Op) (hs : HeapRect s) :
     simp only [step, specStep, List.getElem?_map]
     cases ht : s[h]? with
     | none => rfl
-    | some t =>
-      obtain ⟨n, hn⟩ := hs.get ht
-      simp only [Option.map_some, absStep_query, abs_applyFn hn]
+    | some t => simp only [Option.map_some, absStep_query, abs_applyFn t]
   | slice dst h a b st =>
     simp only [step, specStep, List.getElem?_map]
     cases ht : s[h]? with
